@@ -1646,4 +1646,288 @@ theorem hashPhase_total {t : SymTab} {symB strB : Bytes} (h : Wf t symB strB) (h
 
 
 end SymTab
+
+namespace Spec
+
+/-- invariant of the construction after the symbols `1..k` have been entered -/
+structure SysvInv (nb n k : Nat) (st : List Nat × List Nat) : Prop where
+  lb : st.1.length = nb
+  lc : st.2.length = n
+  heads : ∀ (b v : Nat), st.1[b]? = some v → v ≤ k
+  desc : ∀ (j v : Nat), st.2[j]? = some v → 1 ≤ j → v < j
+
+theorem sysvInsert_inv {nb n k : Nat} {st : List Nat × List Nat} (h : SysvInv nb n k st) (hv : Nat)
+    (hnb : 1 ≤ nb) (hk : k + 1 < n) : SysvInv nb n (k + 1) (sysvInsert nb st (k + 1, hv)) := by
+  have hb : hv % nb < nb := Nat.mod_lt _ (by omega)
+  refine ⟨by simp [sysvInsert, h.lb], by simp [sysvInsert, h.lc], ?_, ?_⟩
+  · intro b v hbv
+    simp only [sysvInsert, List.getElem?_set] at hbv
+    split at hbv
+    · split at hbv
+      · cases hbv; exact Nat.le_refl _
+      · cases hbv
+    · have := h.heads b v hbv; omega
+  · intro j v hjv hj
+    simp only [sysvInsert, List.getElem?_set] at hjv
+    split at hjv
+    · split at hjv
+      · rename_i e _
+        cases hjv
+        subst e
+        have hlt : hv % nb < st.1.length := by rw [h.lb]; exact hb
+        have := h.heads (hv % nb) (st.1.getD (hv % nb) 0) (by
+          simp [List.getD, List.getElem?_eq_getElem hlt])
+        omega
+      · cases hjv
+    · exact h.desc j v hjv hj
+
+theorem sysvTables_inv (nb : Nat) (hs : List Nat) (hnb : 1 ≤ nb) :
+    SysvInv nb (hs.length + 1) hs.length (sysvTables nb hs) := by
+  unfold sysvTables
+  -- generalise: entering the symbols k+1.. on a state satisfying the invariant at k
+  have key : ∀ (rest : List Nat) (k : Nat) (st : List Nat × List Nat) (n : Nat), k + rest.length + 1 = n →
+      SysvInv nb n k st →
+      SysvInv nb n (k + rest.length) (((List.range' (k + 1) rest.length).zip rest).foldl (sysvInsert nb) st) := by
+    intro rest
+    induction rest with
+    | nil => intro k st n _ h; simpa using h
+    | cons x xs ih =>
+      intro k st n hn h
+      simp only [List.length_cons, List.range'_succ, List.zip_cons_cons, List.foldl_cons]
+      have h1 := sysvInsert_inv h x hnb (by simp at hn; omega)
+      have := ih (k + 1) _ n (by simp at hn ⊢; omega) h1
+      have e : k + 1 + xs.length = k + (xs.length + 1) := by omega
+      rw [e] at this
+      exact this
+  have h0 : SysvInv nb (hs.length + 1) 0 (List.replicate nb 0, List.replicate (hs.length + 1) 0) := by
+    refine ⟨by simp, by simp, ?_, ?_⟩
+    · intro b v hbv
+      simp only [List.getElem?_replicate] at hbv
+      split at hbv <;> simp_all
+    · intro j v hjv hj
+      simp only [List.getElem?_replicate] at hjv
+      split at hjv
+      · cases hjv; omega
+      · cases hjv
+  have := key hs 0 _ (hs.length + 1) (by omega) h0
+  simpa using this
+
+end Spec
+
+namespace SymTab
+
+theorem wordAt_words (e : Enc) (ws : List Nat) (i w : Nat) (h : ws[i]? = some w) :
+    wordAt e ((ws.map (encodeInt e 4)).flatten) i = w % 4294967296 := by
+  unfold wordAt
+  rw [Nat.mul_comm, slice_flatten_block (encodeInt e 4) 4 ws (fun x _ => encodeInt_length e 4 x) i w h,
+    decode_encodeInt]
+
+/-- **ABI-built SysV tables are well-formed** (so the walk over them neither faults nor loops) -/
+theorem buildSysv_wf (e : Enc) (nb : Nat) (hs : List Nat) (hnb : 1 ≤ nb)
+    (hsmall : 2 + nb + (hs.length + 1) < 4294967296) : SysvWf e (Spec.buildSysv e nb hs) := by
+  have inv := Spec.sysvTables_inv nb hs hnb
+  have hl : (Spec.sysvWords nb hs).length = 2 + nb + (hs.length + 1) := by
+    simp [Spec.sysvWords, inv.lb, inv.lc]; omega
+  have w0 : wordAt e (Spec.buildSysv e nb hs) 0 = nb := by
+    rw [Spec.buildSysv, wordAt_words e _ 0 nb (by simp [Spec.sysvWords])]; omega
+  have w1 : wordAt e (Spec.buildSysv e nb hs) 1 = hs.length + 1 := by
+    rw [Spec.buildSysv, wordAt_words e _ 1 (hs.length + 1) (by simp [Spec.sysvWords])]; omega
+  refine ⟨by rw [w0]; exact hnb, ?_, by rw [w0, w1]; exact hsmall, ?_⟩
+  · rw [w0, w1, Spec.buildSysv, flatten_block_length _ 4 _ (fun x _ => encodeInt_length e 4 x), hl]; omega
+  · intro y hy1 hy2
+    rw [w0]; rw [w1] at hy2
+    have hyc : y < (Spec.sysvTables nb hs).2.length := by rw [inv.lc]; exact hy2
+    have hget : (Spec.sysvWords nb hs)[2 + nb + y]? = some ((Spec.sysvTables nb hs).2[y]) := by
+      simp only [Spec.sysvWords, List.getElem?_append, List.length_append, List.length_cons, List.length_nil, inv.lb]
+      have h1 : ¬ (2 + nb + y < 0 + 1 + 1 + nb) := by omega
+      have h2 : ¬ (2 + nb + y < 0 + 1 + 1) := by omega
+      simp only [h1, if_false]
+      have : 2 + nb + y - (0 + 1 + 1 + nb) = y := by omega
+      rw [this]
+      exact List.getElem?_eq_getElem hyc
+    have hd := inv.desc y _ (List.getElem?_eq_getElem hyc) hy1
+    rw [Spec.buildSysv, wordAt_words e _ _ _ hget]
+    omega
+
+end SymTab
+
+
+namespace Spec
+
+theorem gnuBloom_length (C bs shift : Nat) (hs : List Nat) : (gnuBloom C bs shift hs).length = bs := by
+  unfold gnuBloom
+  have : ∀ (l : List Nat) (init : List Nat), (l.foldl (fun bl h => bl.set ((h / C) % bs)
+      (bl.getD ((h / C) % bs) 0 ||| gnuBloomBits C shift h)) init).length = init.length := by
+    intro l
+    induction l with
+    | nil => intro init; rfl
+    | cons x xs ih => intro init; simp only [List.foldl_cons]; rw [ih]; simp
+  rw [this]; simp
+
+theorem gnuChain_length (nbk : Nat) (hs : List Nat) : (gnuChain nbk hs).length = hs.length := by
+  induction hs with
+  | nil => rfl
+  | cons h t ih =>
+    cases t with
+    | nil => rfl
+    | cons h' rest => simp only [gnuChain, List.length_cons] at ih ⊢; omega
+
+theorem gnuChain_last (nbk : Nat) (hs : List Nat) (hne : hs ≠ []) :
+    ∃ w, (gnuChain nbk hs)[hs.length - 1]? = some w ∧ w % 2 = 1 := by
+  induction hs with
+  | nil => exact absurd rfl hne
+  | cons h t ih =>
+    cases t with
+    | nil => exact ⟨h / 2 * 2 + 1, by simp [gnuChain], by omega⟩
+    | cons h' rest =>
+      obtain ⟨w, hw, hodd⟩ := ih (by simp)
+      refine ⟨w, ?_, hodd⟩
+      simp only [gnuChain, List.length_cons] at hw ⊢
+      have : rest.length + 1 + 1 - 1 = (rest.length + 1 - 1) + 1 := by omega
+      rw [this, List.getElem?_cons_succ]
+      exact hw
+
+/-- every bucket is empty (0) or holds the index of one of the hashed symbols -/
+theorem gnuBuckets_inv (nbk so : Nat) (hs : List Nat) :
+    (gnuBuckets nbk so hs).length = nbk ∧
+    ∀ (b v : Nat), (gnuBuckets nbk so hs)[b]? = some v → v = 0 ∨ (so ≤ v ∧ v - so < hs.length) := by
+  unfold gnuBuckets
+  have key : ∀ (rest : List Nat) (k : Nat) (bk : List Nat),
+      (∀ (b v : Nat), bk[b]? = some v → v = 0 ∨ (so ≤ v ∧ v - so < k)) →
+      (((List.range' k rest.length).zip rest).foldl (gnuBucketStep nbk so) bk).length = bk.length ∧
+      ∀ (b v : Nat), (((List.range' k rest.length).zip rest).foldl (gnuBucketStep nbk so) bk)[b]? = some v →
+        v = 0 ∨ (so ≤ v ∧ v - so < k + rest.length) := by
+    intro rest
+    induction rest with
+    | nil => intro k bk h; exact ⟨rfl, by simpa using h⟩
+    | cons x xs ih =>
+      intro k bk h
+      simp only [List.length_cons, List.range'_succ, List.zip_cons_cons, List.foldl_cons]
+      have hstep : ∀ (b v : Nat), (gnuBucketStep nbk so bk (k, x))[b]? = some v → v = 0 ∨ (so ≤ v ∧ v - so < k + 1) := by
+        intro b v hbv
+        unfold gnuBucketStep at hbv
+        split at hbv
+        · simp only [List.getElem?_set] at hbv
+          split at hbv
+          · split at hbv
+            · cases hbv; right; omega
+            · cases hbv
+          · rcases h b v hbv with e | e
+            · exact Or.inl e
+            · right; omega
+        · rcases h b v hbv with e | e
+          · exact Or.inl e
+          · right; omega
+      have hlen : (gnuBucketStep nbk so bk (k, x)).length = bk.length := by
+        unfold gnuBucketStep; split <;> simp
+      obtain ⟨l1, l2⟩ := ih (k + 1) _ hstep
+      refine ⟨by rw [l1, hlen], ?_⟩
+      intro b v hbv
+      have := l2 b v hbv
+      omega
+  obtain ⟨l1, l2⟩ := key hs 0 (List.replicate nbk 0) (by
+    intro b v hbv
+    simp only [List.getElem?_replicate] at hbv
+    split at hbv <;> simp_all)
+  exact ⟨by rw [l1]; simp, by simpa using l2⟩
+
+end Spec
+
+namespace SymTab
+
+/-- a 32-bit word inside a run of encoded words that sits between two other byte strings -/
+theorem hw32_mid (e : Enc) (pre post : Bytes) (ws : List Nat) (i w : Nat) (h : ws[i]? = some w) :
+    hw32 e (pre ++ (ws.map (encodeInt e 4)).flatten ++ post) (pre.length + 4 * i) = w % 4294967296 := by
+  have hi : i < ws.length := by
+    rcases Nat.lt_or_ge i ws.length with h' | h'
+    · exact h'
+    · rw [List.getElem?_eq_none (by omega)] at h; cases h
+  have hl := flatten_block_length (encodeInt e 4) 4 ws (fun x _ => encodeInt_length e 4 x)
+  unfold hw32
+  rw [slice_append_left (by rw [List.length_append, hl]; omega), slice_append_right (by omega)]
+  have : pre.length + 4 * i - pre.length = i * 4 := by omega
+  rw [this, slice_flatten_block (encodeInt e 4) 4 ws (fun x _ => encodeInt_length e 4 x) i w h, decode_encodeInt]
+
+/-- **ABI-built GNU tables are well-formed** -/
+theorem buildGnu_wf (e : Enc) (c : Cls) (nbk so bs shift : Nat) (hs : List Nat) (hnb : 1 ≤ nbk) (hbs : 1 ≤ bs)
+    (hso : 1 ≤ so) (hsh : shift < 4294967296) (hso2 : so < 4294967296)
+    (hsmall : 16 + bs * bloomW c + nbk * 4 + 4 * hs.length < 4294967296) :
+    GnuWf e c (Spec.buildGnu e (bloomW c) nbk so bs shift hs) hs.length := by
+  obtain ⟨lbk, hbk⟩ := Spec.gnuBuckets_inv nbk so hs
+  have hWpos : 1 ≤ bloomW c := by cases c <;> simp [bloomW]
+  -- the four regions
+  generalize hH : (([nbk, so, bs, shift].map (encodeInt e 4)).flatten) = H
+  generalize hBL : (((Spec.gnuBloom (8 * bloomW c) bs shift hs).map (encodeInt e (bloomW c))).flatten) = BL
+  have lH : H.length = 16 := by rw [← hH]; simp
+  have lBL : BL.length = bs * bloomW c := by
+    rw [← hBL, flatten_block_length _ (bloomW c) _ (fun x _ => encodeInt_length e (bloomW c) x), Spec.gnuBloom_length]
+  have lBK := flatten_block_length (encodeInt e 4) 4 (Spec.gnuBuckets nbk so hs) (fun x _ => encodeInt_length e 4 x)
+  have lCH := flatten_block_length (encodeInt e 4) 4 (Spec.gnuChain nbk hs) (fun x _ => encodeInt_length e 4 x)
+  rw [lbk] at lBK
+  rw [Spec.gnuChain_length] at lCH
+  have hB : Spec.buildGnu e (bloomW c) nbk so bs shift hs
+      = ((H ++ BL) ++ ((Spec.gnuBuckets nbk so hs).map (encodeInt e 4)).flatten) ++
+        ((Spec.gnuChain nbk hs).map (encodeInt e 4)).flatten := by
+    unfold Spec.buildGnu
+    simp only [hH, hBL]
+  -- header words
+  have hdr : ∀ (i w : Nat), [nbk, so, bs, shift][i]? = some w →
+      hw32 e (Spec.buildGnu e (bloomW c) nbk so bs shift hs) (4 * i) = w % 4294967296 := by
+    intro i w hi
+    have := hw32_mid e [] (BL ++ ((Spec.gnuBuckets nbk so hs).map (encodeInt e 4)).flatten ++
+      ((Spec.gnuChain nbk hs).map (encodeInt e 4)).flatten) [nbk, so, bs, shift] i w hi
+    simp only [List.nil_append, List.length_nil, Nat.zero_add, hH] at this
+    rw [hB]
+    simpa [List.append_assoc] using this
+  have w0 : hw32 e (Spec.buildGnu e (bloomW c) nbk so bs shift hs) 0 = nbk := by
+    have := hdr 0 nbk (by simp); simp only [Nat.mul_zero] at this; rw [this]; omega
+  have w4 : hw32 e (Spec.buildGnu e (bloomW c) nbk so bs shift hs) 4 = so := by
+    have := hdr 1 so (by simp); simp only [Nat.mul_one] at this; rw [this]; omega
+  have w8 : hw32 e (Spec.buildGnu e (bloomW c) nbk so bs shift hs) 8 = bs := by
+    have := hdr 2 bs (by simp); simp only [Nat.reduceMul] at this; rw [this]
+    have : bs ≤ bs * bloomW c := Nat.le_mul_of_pos_right _ hWpos
+    omega
+  refine ⟨by rw [w8]; exact hbs, by rw [w0]; exact hnb, ?_, by rw [w8, w0]; exact hsmall, ?_, ?_⟩
+  · rw [w8, w0, hB]
+    simp only [List.length_append, lH, lBL, lBK, lCH]; omega
+  · intro b hb hge
+    rw [w0] at hb
+    rw [w8, w4] at hge ⊢
+    have hbl : b < (Spec.gnuBuckets nbk so hs).length := by rw [lbk]; exact hb
+    have hv := hw32_mid e (H ++ BL) (((Spec.gnuChain nbk hs).map (encodeInt e 4)).flatten)
+      (Spec.gnuBuckets nbk so hs) b _ (List.getElem?_eq_getElem hbl)
+    rw [List.length_append, lH, lBL, ← hB] at hv
+    rw [hv] at hge ⊢
+    rcases hbk b _ (List.getElem?_eq_getElem hbl) with e0 | ⟨e1, e2⟩
+    · rw [e0] at hge; simp at hge; omega
+    · have : (Spec.gnuBuckets nbk so hs)[b] < 4294967296 := by omega
+      rw [Nat.mod_eq_of_lt this]; exact e2
+  · by_cases hne : hs = []
+    · left; rw [hne]; rfl
+    · right
+      obtain ⟨w, hw, hodd⟩ := Spec.gnuChain_last nbk hs hne
+      have hv := hw32_mid e ((H ++ BL) ++ ((Spec.gnuBuckets nbk so hs).map (encodeInt e 4)).flatten) []
+        (Spec.gnuChain nbk hs) (hs.length - 1) w hw
+      simp only [List.append_nil, List.length_append, lH, lBL, lBK] at hv
+      rw [← hB] at hv
+      rw [w8, w0, hv]
+      omega
+
+end SymTab
+
+namespace SymTab
+
+/-- the SysV table for an empty symbol table is well-formed -/
+theorem buildSysvEmpty_wf (e : Enc) (nb : Nat) (hnb : 1 ≤ nb) (hsmall : 2 + nb < 4294967296) :
+    SysvWf e (Spec.buildSysvEmpty e nb) := by
+  have w0 : wordAt e (Spec.buildSysvEmpty e nb) 0 = nb := by
+    rw [Spec.buildSysvEmpty, wordAt_words e _ 0 nb (by simp)]; omega
+  have w1 : wordAt e (Spec.buildSysvEmpty e nb) 1 = 0 := by
+    rw [Spec.buildSysvEmpty, wordAt_words e _ 1 0 (by simp)]
+  refine ⟨by rw [w0]; exact hnb, ?_, by rw [w0, w1]; omega, ?_⟩
+  · rw [w0, w1, Spec.buildSysvEmpty, flatten_block_length _ 4 _ (fun x _ => encodeInt_length e 4 x)]
+    simp; omega
+  · intro y _ hy2; rw [w1] at hy2; omega
+
+end SymTab
 end ElfioVerif
